@@ -2,13 +2,14 @@ from propcommon import *  # noqa
 
 CFG = dict(
     level="proof",
-    lean_modules=["ElysModel.Props.C20"],
-    props_files=["ElysModel/Props/C20.lean"],
+    lean_modules=["ElysModel.Props.C20", "ElysModel.Props.C20Src"],
+    pre_cmds=[GO2LEAN],
+    props_files=["ElysModel/Props/C20.lean", "ElysModel/Props/C20Src.lean"],
     runs=[scn_run("c20"), hist_run(focus="ts."), dict(hist_run(nq=200, sq=4, st=8, focus="ts."), env_quick={"VERIF_HISTS": "1", "VERIF_FOCUS": "ts.", "VERIF_GENTRIP": "1"}, env_thorough={"VERIF_HISTS": "3", "VERIF_FOCUS": "ts.", "VERIF_GENTRIP": "1"})],
     rule=HIST_RULE + "; plus directed scenarios (mode scn, prefix c20)",
-    trusted_base=COMMON_TB + ["what happened to each pending order in a block (cancelled / executed / untouched) is inferred from the order sets before and after and the "
+    trusted_base=COMMON_TB + [SRC_TB, "what happened to each pending order in a block (cancelled / executed / untouched) is inferred from the order sets before and after and the "
                               "block's successful cancel/update messages; the market price is the post-block oracle price (price feeds are first in a block)"],
-    assumptions=["limit-close perpetual orders are disabled in the code (v1) and not generated"],
+    assumptions=[SRC_ASSUME, "limit-close perpetual orders are disabled in the code (v1) and not generated"],
     explanation="Theorems: while an order is pending its escrow holds at least its amount (all histories, repaired handler); wallet + escrow conservation through create/update/"
                 "cancel and skipped/failed executions; owner-only update/cancel; an execution changes nothing unless the trigger holds; cancel returns the whole escrow; witness "
                 "of the pre-repair partial-effect defect. Predicates (escrow holds, owner only, trigger, cancel returns all) evaluated on every observed block."
